@@ -260,6 +260,26 @@ def rule_PL2(ctx, tier):
     else:
         rr.fail("backoff-missing", "expected one retry_notify under Retrier::start, found %d" % len(rn))
     rr.require_floor(5, "PL2 instances")
+    # every retryable failure goes through the exponential schedule: `Error::transient` leaves the delay to the back-off
+    # (which also enforces max_elapsed_time); a fixed `retry_after` bypasses both, so the retrier never gives up
+    ra = []
+    for fid in P.family(RUN.rsplit("::{closure", 1)[0]) if RUN.rsplit("::{closure", 1)[0] in P.bodies else P.family(RUN):
+        fb = P.bodies[fid]
+        for bb, t in fb.calls():
+            if (call_target(t) or "").endswith("::retry_after") and "backoff" in (call_target(t) or ""):
+                ra.append((fb, bb))
+        for bb in fb.rpo():
+            for s_ in fb.blocks[bb]["s"]:
+                if s_["k"] == "assign" and s_["rv"]["k"] == "agg" and s_["rv"].get("adt", "").startswith("backoff::") and s_["rv"].get("variant") == "Transient":
+                    t_ = ctx.og._rvalue(fb, s_["rv"], 0, ())
+                    fields = dict(t_[3]) if t_[0] == "agg" else {}
+                    r_ = fields.get("retry_after")
+                    if not (isinstance(r_, tuple) and r_ and r_[0] == "agg" and r_[2] == "None"):
+                        ra.append((fb, bb))
+    if not ra:
+        rr.ok("retryable errors leave the delay to the exponential back-off (no fixed retry_after)")
+    for fb, bb in ra:
+        rr.fail("fixed-retry-delay:%s" % shortfn(fb.id), "`%s` returns a transient error with a fixed `retry_after`: the back-off loop then neither grows the interval nor checks max_elapsed_time, so a tower that keeps answering this way is polled for ever and the retrier never goes idle" % shortfn(fb.id), where=fb.line_of(bb))
     return rr
 
 
